@@ -25,3 +25,15 @@ META["C20"] = {
     "level_note": "comparison functions are the harness's own field-by-field ones (Group.Equal ignores genesis time and catch-up period); generators stay within values the system can produce",
     "technique": "runtime round-trip oracle on real encoders/decoders over generated values; reflection-filled DKG state records",
 }
+META["C01"] = {
+    "level": "exploration",
+    "level_text": "every beacon written to any node's base store (aggregation, sync, restart catch-up) and every beacon served on peer sync / public gRPC / HTTP in the explored executions verifies under a group key the harness generated itself; executions cover schemes x (n,t) x back-ends x fault scripts x an active adversary below the threshold",
+    "level_note": "oracle = kyber VerifyRecovered with the harness's own public key; reach limited to the scenarios generated (counts in evidence)",
+    "technique": "runtime monitoring: store/wire taps with an online signature-verification oracle under adversarial and faulty network workloads",
+}
+META["C02"] = {
+    "level": "exploration",
+    "level_text": "online shadow-map invariants at each base store (append-only, head+1, write-once, link, agreement) and offline scans of re-opened stores held on every explored execution; concurrent Put histories at the CallbackStore boundary are linearizable against a sequential append-only model (porcupine)",
+    "level_note": "trusts bbolt, porcupine and byte-equality as agreement; explored schedules are sampled, not enumerated",
+    "technique": "runtime monitoring: store taps with shadow-state invariants; porcupine linearizability of recorded Put histories",
+}
